@@ -91,11 +91,12 @@ def _mi_sig(vec: Dict[str, Any], obs: Dict[str, Any]) -> str:
     return "multiindex|%s|%s|%s|%s|%s|%s|%s" % (
         [(l["dtype"], l["coerce"], len(l["checks"])) for l in s["lv"]], (s["coerce"], s["strict"], s["ordered"], s["unique"]),
         [l["name"] for l in vec["levels"]], [l["pd"] for l in vec["levels"]], sorted(vec["opts"].items()), obs["kind"],
-        obs["in_schema"]["kind"])
+        obs["in_schema"]["kind"] + "/" + obs["in_series"]["kind"])
 
 
 def _mi_runs(obs: Dict[str, Any]):
-    return (("MultiIndex.validate(df)", obs), ("DataFrameSchema(index=MultiIndex).validate(df)", obs["in_schema"]))
+    return (("MultiIndex.validate(df)", obs), ("DataFrameSchema(index=MultiIndex).validate(df)", obs["in_schema"]),
+            ("SeriesSchema(index=MultiIndex).validate(series)", obs["in_series"]))
 
 
 def compare_mi_c03(vec: Dict[str, Any], obs: Dict[str, Any]) -> Outcome:
